@@ -114,6 +114,8 @@ def show(t, depth=0) -> str:
         return f"<default {t[1].split('.')[-1]}.{t[2]}>"
     if k == "opaque":
         return f"?{t[1]}"
+    if k == "alts":
+        return " | ".join(f"[{g}] {show(x)}" for g, x in t[1])
     if k == "tuple":
         return "(" + ", ".join(show(x) for x in t[1]) + ")"
     if k == "dict":
@@ -536,14 +538,24 @@ class NF:
                                                          and not self.overridden_below(ty, mname))):
             c, m = ty.find_method(mname)
             if m is not None and not _is_protocol_stub(m):
+                extra = {}
+                params = [a.arg for a in m.args.args[1:]]
+                for p in params:       # e.g. `parent`
+                    extra[p] = sym(p)
                 try:
-                    extra = {}
-                    params = [a.arg for a in m.args.args[1:]]
-                    for p in params:       # e.g. `parent`
-                        extra[p] = sym(p)
                     return self.method(c, m, t, extra, env)
                 except Opaque:
                     pass
+                # a branching codec method: keep every returning path as an alternative
+                if t[0] == "ctor":
+                    try:
+                        alts = [(g, term) for g, outcome, term, node, e2 in self.paths(c, mname, self_t=t, args=extra) if outcome == "return"]
+                        if len(alts) > 1:
+                            return ("alts", tuple((" and ".join(("" if tk else "not ") + (u(n) if isinstance(n, ast.AST) else "?")[:50] for _, tk, n in g), term) for g, term in alts))
+                        if len(alts) == 1:
+                            return alts[0][1]
+                    except Opaque:
+                        pass
         return (marker, t)
 
     # ------------------------------------------------------------------ attribute projection
@@ -1096,6 +1108,25 @@ class NF:
                     types[a[x.arg]] = ty
         env2 = Env(c.module, cls, vars, types, 0, 0)
         return self.body(m, env2), env2
+
+    def method_alts(self, cls: Class, name: str, self_t=None, args: dict | None = None):
+        """normal forms of ALL returning paths of a method: [(guard text, term, env)].  A straight-line method gives one entry.
+        Raising paths are omitted (they refuse, they do not compute)."""
+        try:
+            t, env = self.method_nf(cls, name, self_t, args)
+            return [("", t, env)]
+        except Opaque:
+            pass
+        out = []
+        for guards, outcome, term, node, env in self.paths(cls, name, self_t, args):
+            if outcome == "return":
+                g = " and ".join(("" if taken else "not ") + (u(n) if isinstance(n, ast.AST) else str(n))[:60] for _, taken, n in guards)
+                out.append((g, term, env))
+            elif outcome == "fallthrough":
+                out.append((" and ".join(("" if taken else "not ") + u(n)[:60] for _, taken, n in guards), const(None), env))
+        if not out:
+            raise Opaque(f"{cls.qualname}.{name}: no returning path")
+        return out
 
     def expr_nf(self, src: str, cls: Class, module: Module | None = None, self_t=None, extra: dict | None = None):
         """normal form of a Python expression written over `self` of class cls (used for spec tables)"""
